@@ -467,9 +467,27 @@ func TestRequestValues(t *testing.T) {
 	names := append(append([]string{}, ref.Forwarded...), ref.Local...)
 	rapid.Check(t, func(t *rapid.T) {
 		var c reqCase
-		switch rapid.IntRange(0, 3).Draw(t, "kind") {
+		switch rapid.IntRange(0, 5).Draw(t, "kind") {
 		case 0:
 			c.Value = gen.Value(t, "v", 3, 64, 5)
+		case 1, 2:
+			// numeric sweep: one argument position of a command carries an integer text at or near a limit; the commands whose
+			// arguments the proxy interprets itself (script key counts, cursors, database numbers, multi-key lists) are drawn half of the time
+			name := rapid.SampledFrom(names).Draw(t, "nname")
+			if rapid.Bool().Draw(t, "interpreted") {
+				name = rapid.SampledFrom([]string{"eval", "evalsha", "scan", "select", "hotkey", "mget", "mset", "del", "exists", "touch", "unlink", "info", "sscan", "hscan", "zscan"}).Draw(t, "iname")
+			}
+			argc := rapid.IntRange(1, 6).Draw(t, "nargc")
+			pos := rapid.IntRange(0, argc-1).Draw(t, "npos")
+			args := []ref.Value{ref.BulkS(name)}
+			for i := 0; i < argc; i++ {
+				if i == pos || rapid.IntRange(0, 5).Draw(t, "also") == 0 {
+					args = append(args, ref.BulkS(gen.HostileInt(t, "hint")))
+				} else {
+					args = append(args, ref.BulkS(rapid.StringMatching(`[a-z{}]{1,6}`).Draw(t, "narg")))
+				}
+			}
+			c.Value = ref.ArrV(args...)
 		default:
 			// a supported name with hostile argument shapes
 			args := []ref.Value{ref.BulkS(rapid.SampledFrom(names).Draw(t, "name"))}
